@@ -3,6 +3,7 @@ package main
 import (
 	"fmt"
 	"go/ast"
+	"go/constant"
 	"go/token"
 	"go/types"
 	"sort"
@@ -657,7 +658,7 @@ func checkC19(r *Report) {
 	tableTrusted(r)
 	cmpTrusted(r)
 	effectTrusted(r)
-	r.Explain = "Structural clauses of 'attribute sets are values with a faithful text form'. C19.a CLONE-COMPLETE: attr.Set.Clone, dep.Type.Clone and version.AttrSet.Clone set every field of their result, and no map/slice/pointer field is copied by reference (it must come from make or a nested Clone). C19.b COVER: attr.Set.Compare reads Mask, attrBits and attrs of both operands, and the dep/version wrappers delegate to it. C19.c WRITERS: the attrs map is written only by SetAttr and Clone, and SetAttr updates attrBits from the same key on every path after the map update. C19.d FRESH-SET: every call of SetAttr/AddAttr in scope acts on a set that is not client- or cache-owned memory (zero value, constructor, Clone, or the mutator's own receiver). C19.e KEY-TABLES: the key lists of the text parsers (deptest/versiontest allKeys) enumerate every declared AttrKey constant, flagKeys ⊇ the mask keys, lower-cased key names are pairwise distinct, mask keys are distinct single bits below 1<<maskLen, value keys are distinct and below 64 (SetAttr panics above), and dep.Type.String mentions every mask key. Not decided: quoting of values with spaces in the text form; the order laws over all triples."
+	r.Explain = "Structural clauses of 'attribute sets are values with a faithful text form'. C19.a CLONE-COMPLETE: attr.Set.Clone, dep.Type.Clone and version.AttrSet.Clone set every field of their result, and no map/slice/pointer field is copied by reference (it must come from make or a nested Clone). C19.b COVER: attr.Set.Compare reads Mask, attrBits and attrs of both operands, and the dep/version wrappers delegate to it. C19.c WRITERS: the attrs map is written only by SetAttr and Clone, and SetAttr updates attrBits from the same key on every path after the map update. C19.d FRESH-SET: every call of SetAttr/AddAttr in scope acts on a set that is not client- or cache-owned memory (zero value, constructor, Clone, or the mutator's own receiver). C19.f QUOTE-AGREE: versiontest.String and versiontest.ParseString (documented as inverse) agree on quoting — the parser unquotes exactly when the writer quotes. C19.e KEY-TABLES: the key lists of the text parsers (deptest/versiontest allKeys) enumerate every declared AttrKey constant, flagKeys ⊇ the mask keys, lower-cased key names are pairwise distinct, mask keys are distinct single bits below 1<<maskLen, value keys are distinct and below 64 (SetAttr panics above), and dep.Type.String mentions every mask key. Not decided: quoting of values with spaces in the text form; the order laws over all triples."
 	// a. CLONE-COMPLETE
 	for _, name := range []string{"(resolve/internal/attr.Set).Clone", "(*resolve/dep.Type).Clone", "(resolve/version.AttrSet).Clone"} {
 		f := p.lookupFn(name)
@@ -770,6 +771,86 @@ func checkC19(r *Report) {
 	// e. KEY-TABLES
 	keyTablesRule(r, p, "resolve/dep", "resolve/internal/deptest", true)
 	keyTablesRule(r, p, "resolve/version", "resolve/internal/versiontest", false)
+	// f. QUOTE-AGREE
+	quoteAgreeRule(r, p, "C19.f/QUOTE-AGREE", "resolve/internal/versiontest.String", "resolve/internal/versiontest.ParseString")
+}
+
+// quoteAgreeRule: a writer and the parser documented as its inverse agree on
+// whether values are quoted: the parser unquotes (strconv.Unquote*) exactly
+// when the writer quotes (strconv.Quote*, or a %q verb). If only one side does,
+// a value that is itself a quoted literal does not survive the round trip.
+func quoteAgreeRule(r *Report, p *Prog, rule, writer, reader string) {
+	wf, rf := p.lookupFn(writer), p.lookupFn(reader)
+	if wf == nil || rf == nil {
+		r.bad(rule, writer+" / "+reader, "", "writer or parser not found: anchor lost")
+		return
+	}
+	// calls made by f and by the in-scope functions it calls statically (depth 3)
+	uses := func(f *ssa.Function, pred func(ssa.CallInstruction) bool) (bool, int) {
+		seen := map[*ssa.Function]bool{}
+		n := 0
+		var walk func(g *ssa.Function, d int) bool
+		walk = func(g *ssa.Function, d int) bool {
+			if seen[g] || d > 3 {
+				return false
+			}
+			seen[g] = true
+			hit := false
+			for _, b := range g.Blocks {
+				for _, in := range b.Instrs {
+					c, ok := in.(ssa.CallInstruction)
+					if !ok {
+						continue
+					}
+					n++
+					if pred(c) {
+						hit = true
+					}
+					if sc := c.Common().StaticCallee(); sc != nil && p.inScope(sc) && sc.Pkg == g.Pkg && walk(sc, d+1) {
+						hit = true
+					}
+				}
+			}
+			for _, an := range g.AnonFuncs {
+				if walk(an, d+1) {
+					hit = true
+				}
+			}
+			return hit
+		}
+		return walk(f, 0), n
+	}
+	isStrconv := func(prefix string) func(ssa.CallInstruction) bool {
+		return func(c ssa.CallInstruction) bool {
+			sc := c.Common().StaticCallee()
+			if sc != nil && sc.Pkg != nil && sc.Pkg.Pkg.Path() == "strconv" && strings.HasPrefix(sc.Name(), prefix) {
+				return true
+			}
+			if prefix == "Quote" && sc != nil && sc.Pkg != nil && sc.Pkg.Pkg.Path() == "fmt" && len(c.Common().Args) > 0 {
+				for _, a := range c.Common().Args {
+					if k, ok := a.(*ssa.Const); ok && k.Value != nil && k.Value.Kind() == constant.String && strings.Contains(constant.StringVal(k.Value), "%q") {
+						return true
+					}
+				}
+			}
+			return false
+		}
+	}
+	quotes, nw := uses(wf, isStrconv("Quote"))
+	unquotes, nr := uses(rf, isStrconv("Unquote"))
+	key := fnKey(wf) + " / " + fnKey(rf) + ": quoting"
+	if quotes == unquotes {
+		how := "neither side quotes: values are written and read verbatim"
+		if quotes {
+			how = "the writer quotes and the parser unquotes"
+		}
+		r.ok(rule, key, p.pos(rf.Pos()), fmt.Sprintf("%s (%d + %d calls inspected)", how, nw, nr))
+	} else if unquotes {
+		r.bad(rule, key, p.pos(rf.Pos()), "the parser unquotes values but the writer documented as its inverse writes them verbatim: a value that is itself a quoted literal is read back without its quotes, so write-then-parse gives an unequal set")
+	} else {
+		r.bad(rule, key, p.pos(wf.Pos()), "the writer quotes values but the parser documented as its inverse reads them verbatim: every value comes back with quotes added")
+	}
+	r.floor(rule, "calls inspected in the writer and the parser", nw+nr, 6)
 }
 
 func keyTablesRule(r *Report, p *Prog, keyPkg, testPkg string, checkString bool) {
